@@ -31,7 +31,7 @@ ASSUMPTIONS = [
     'in-memory channel; the Redis managers are driven separately against a '
     'fake redis module in the secondary part of this check',
 ]
-BUDGET = {'quick': 1500, 'thorough': 48000}
+BUDGET = {'quick': 8000, 'thorough': 64000}
 FLOOR = {'quick': 100, 'thorough': 4000}
 
 REQUIRED = {
